@@ -178,6 +178,39 @@ Qed.
 
 Print Assumptions cascade_rotation_invariant.
 
+(* ---------- several interfering topologies, spin-0 final particles ---------- *)
+Lemma phase_zero psi : phase 0 psi = RtoC 1.
+Proof. unfold phase. replace (IZR 0 / 2 * psi) with 0 by (simpl; field). rewrite cos_0, sin_0. reflexivity. Qed.
+
+Definition topo_ok (J2 : Z) (a b g : R) (t : topo) : Prop :=
+  Forall (fun r => parity_ok J2 0 r /\ covariant (r_B r)) (t_rs t) /\
+  mmul (Euler a b g) (Euler (t_phi1 t) (t_th1 t) 0) = Euler (t_phi1' t) (t_th1' t) (t_psi t).
+
+Lemma total_amp_transform J2 a b g (ts : list topo) M :
+  (0 <= J2 <= 8)%Z -> In M (m_range J2) -> Forall (topo_ok J2 a b g) ts ->
+  total_amp_after J2 ts M = D_apply J2 a b g (total_amp_before J2 ts) M.
+Proof.
+  intros HJ HM Hts. induction Hts as [|t ts [Hrs HE] _ IH].
+  - unfold total_amp_after, total_amp_before. simpl. rewrite D_apply_zero. reflexivity.
+  - unfold total_amp_after, total_amp_before in *. cbn [fold_right].
+    rewrite (topo_amp_transform J2 0 a b g _ _ _ _ _ (t_phi2 t) (t_rs t) M HJ HM Hrs HE), IH, phase_zero.
+    rewrite (D_apply_add J2 a b g (topo_amp J2 0 (t_phi1 t) (t_th1 t) (t_phi2 t) (t_rs t))
+               (fun m => fold_right (fun t0 acc => Cadd (topo_amp J2 0 (t_phi1 t0) (t_th1 t0) (t_phi2 t0) (t_rs t0) m) acc) (0, 0) ts) M).
+    cring.
+Qed.
+
+(* any parent spin (2J <= 8), any number of topologies, resonances and resonance spins, spin-0 final particles:
+   a common rotation of all momenta leaves the density summed over the parent helicity unchanged *)
+Theorem multi_topology_rotation_invariant J2 a b g (ts : list topo) :
+  (0 <= J2 <= 8)%Z -> Forall (topo_ok J2 a b g) ts ->
+  hel_norm2 J2 (total_amp_after J2 ts) = hel_norm2 J2 (total_amp_before J2 ts).
+Proof.
+  intros HJ Hts. rewrite <- (D_removes_rotation J2 a b g (total_amp_before J2 ts) HJ).
+  unfold hel_norm2. apply zsum_ext. intros M HM.
+  rewrite (total_amp_transform J2 a b g ts M HJ HM Hts). reflexivity.
+Qed.
+Print Assumptions multi_topology_rotation_invariant.
+
 (* two-step cascade  A -> R c, R -> a b  written with the vertex form of the subtree *)
 Corollary two_step_rotation_invariant J2 lc nu th2 a b g phi1 th1 phi1' th1' psi phi2
           (rs : list (Z * (Z -> C) * (Z -> C))) :
